@@ -111,7 +111,7 @@ contract(Q + 'LimitedTaskQueue.release',
          ghost_vars={'src': 'list[int]'},
          ghost_init=['src = []'],
          ghost_after={'released.append(itask)': 'src.append(len(self.deque))'},
-         modifies=['self.deque[*]', 'active[*]'], props=['C05'])
+         modifies=['self.deque[*]', 'active[*]'], props=['C05', 'C06'])
 
 
 @spec
